@@ -187,8 +187,8 @@ func (c13CodecRec) Codec() []byte { return []byte{0x7f, 0x7f} }
 // a registered record type that is not a peer record but lives in the peer-record signature domain
 type c13OtherRec struct{ raw []byte }
 
-func (*c13OtherRec) Domain() string                  { return peer.PeerRecordEnvelopeDomain }
-func (*c13OtherRec) Codec() []byte                   { return []byte{0x7e, 0x13} }
+func (*c13OtherRec) Domain() string                   { return peer.PeerRecordEnvelopeDomain }
+func (*c13OtherRec) Codec() []byte                    { return []byte{0x7e, 0x13} }
 func (r *c13OtherRec) MarshalRecord() ([]byte, error) { return r.raw, nil }
 func (r *c13OtherRec) UnmarshalRecord(b []byte) error {
 	r.raw = append([]byte{}, b...)
@@ -648,9 +648,9 @@ func c13Prepopulate(f *c13Fix, r *c13Key, preR bool) (int, error) {
 }
 
 var (
-	c13ORecOnce sync.Once
+	c13ORecOnce  sync.Once
 	c13ORecBytes []byte
-	c13ORecErr  error
+	c13ORecErr   error
 )
 
 // c13ORecord: O's own certified record (sealed once; every fixture consumes a fresh envelope object).
